@@ -1,6 +1,6 @@
 (* C16 — Decoders/parsers are total: malformed input gives an error, never a crash.
    This file contains only the property theorems, each closed by `exact`. *)
-From V Require Import Store.Codec Store.CodecTotal.
+From V Require Import Store.Codec Store.CodecTotal Store.AppMeta Store.AppMetaTotal.
 
 (* For EVERY byte string, each store decoder returns a value or an error: it never hits a Go
    runtime panic (out-of-range index/slice), and its loops terminate within the fuel
@@ -20,3 +20,18 @@ Print Assumptions C16_txhdr_read_total.
 Theorem C16_replicate_framing_total : forall b : bytes, repl_parse b <> Panic /\ repl_parse b <> Err EFuel.
 Proof. exact repl_parse_safe. Qed.
 Print Assumptions C16_replicate_framing_total.
+
+(* The metadata block at the head of every appendable file (embedded/appendable/metadata.go, read
+   at open time): decoding never panics and stops within |input|+1 iterations; the typed getters
+   (GetInt / GetBool) never panic on whatever value was stored. *)
+Theorem C16_appendable_metadata_total :
+  forall b : bytes, snd (appmd_read b) <> Panic /\ snd (appmd_read b) <> Err EFuel.
+Proof. exact appmd_read_safe. Qed.
+Print Assumptions C16_appendable_metadata_total.
+
+Theorem C16_appendable_metadata_getters_total :
+  forall b k : bytes,
+    (appmd_get_int b k <> Panic /\ appmd_get_int b k <> Err EFuel) /\
+    (appmd_get_bool b k <> Panic /\ appmd_get_bool b k <> Err EFuel).
+Proof. exact appmd_getters_safe. Qed.
+Print Assumptions C16_appendable_metadata_getters_total.
